@@ -83,6 +83,10 @@ def checkOp (st : St) (op : String) (evs : List Ev) : St × Option String :=
       if held && op != "en" && a.sawReload then some "reload-while-held"
       else if held && op != "en" && a.sawApi then some "api-push-while-held"
       else if a.reloadFailed && ok then some "failed-reload-not-returned"
+      -- only EnableReloads / DisableReloads move the gate: an operation that leaves it closed behind itself makes every later
+      -- change wait for somebody else's EnableReloads (and one that leaves it open ends a hold it does not own)
+      else if op != "en" && op != "dis" && st.enabled && !en then some "gate-closed-by-operation"
+      else if op != "en" && op != "dis" && !st.enabled && en then some "gate-opened-by-operation"
       else if st.enabled && en && ok && opApplies op then
         match a.touched.reverse.find? (fun k => relevant static k && get a.st.disk k != get a.st.running k) with
         | some k => some ("unapplied:" ++ k)
